@@ -57,7 +57,8 @@ func (mf *memorySegmentFile) close() (err error) {
 }
 
 func (mf *memorySegmentFile) get() (io.Reader, int, error) {
-	data := mf.file.Bytes()
+	// 分段被移出播放列表后缓冲会归还到池并被新分段复用，读者必须持有副本
+	data := append([]byte(nil), mf.file.Bytes()...)
 	return bytes.NewReader(data), len(data), nil
 }
 
